@@ -154,7 +154,11 @@ Definition c09_step (c0 tdrv : Z) (q : ost) (o : op) (x : out) : verdict :=
   | DropHandle k r' =>
       match r with Panic | Hang | Crash => Bad | _ =>
       let bump := set_qmax (fold_left Z.max (map cmd_corr cmds) (q_max q)) q in
-      if q_closed q then Next bump
+      if q_closed q
+      then match rlookup k r' (q_regs q) with
+           | Some (LReady (Some _) _ _ _) => Next (set_regs (rset k r' LGone (q_regs bump)) bump)   (* the handle is gone *)
+           | _ => Next bump
+           end
       else match rlookup k r' (q_regs q) with
       | Some (LReady (Some _) _ _ _) =>
           match cmds with
